@@ -678,8 +678,74 @@ def double_subscription(ctx, n):
                      family='double-subscription')
 
 
+def channels_as_payloads(ctx, n):
+    """directed family (direct API): a channel (or queue) is an awaitable and may be run as a task payload - `scope.do(channel)`
+    receives one message in the background.  That task ending (with its message, cancelled, or closed with its scope) is not
+    `close()`: the stream stays open, the other consumers keep receiving everything and `put` keeps working"""
+    import usim
+    from usim import time, Scope
+    rng = ctx.rng
+    for _ in range(n):
+        kind = rng.choice(['channel', 'channel', 'queue'])
+        end = rng.choice(['message', 'cancel', 'scope'])
+        case = {'stream_as_payload': kind, 'background_task_ends_by': end}
+        stream = usim.Channel() if kind == 'channel' else usim.Queue()
+        got, errors, bg = [], [], []
+
+        async def consumer():
+            try:
+                async for x in stream:
+                    got.append((x, time.now))
+            except usim.StreamClosed:
+                errors.append(('consumer saw StreamClosed', time.now))
+
+        async def main():
+            async with Scope() as scope:
+                if kind == 'channel':
+                    scope.do(consumer())
+                async with Scope() as inner:
+                    t = inner.do(stream, volatile=(end == 'scope'))
+                    await (time + 1)
+                    if end == 'message':
+                        await stream.put('m0')
+                        await (time + 1)
+                    elif end == 'cancel':
+                        t.cancel()
+                        await (time + 1)
+                bg.append(t.status)
+                if kind == 'queue':
+                    scope.do(consumer())
+                for i in (1, 2, 3):
+                    await (time + 1)
+                    try:
+                        await stream.put('m%d' % i)
+                    except usim.StreamClosed:
+                        errors.append(('put raised StreamClosed', time.now))
+                await (time + 1)
+                await stream.close()
+        import warnings
+        try:
+            with warnings.catch_warnings():
+                warnings.simplefilter('ignore', RuntimeWarning)     # (try_close() creates the coroutine of close() and drops it)
+                watch.run(main())
+        except BaseException as e:   # noqa
+            ctx.fail(case, 'raised %r; received %r' % (e, got), family='streams-as-payloads')
+            continue
+        ctx.count(('payload', json.dumps(case)), nontrivial=True)
+        ctx.bump('family:streams-as-payloads')
+        t0 = 2 if end in ('message', 'cancel') else 1
+        want = [('m%d' % i, t0 + i) for i in (1, 2, 3)]
+        if kind == 'channel' and end == 'message':
+            want = [('m0', 1)] + want
+        if got != want or any(e[0] != 'consumer saw StreamClosed' or e[1] != t0 + 4 for e in errors):
+            ctx.fail(case, 'a %s run as the payload of a background task that ended by %r: the other consumer received %r, expected %r; '
+                           'errors %r (only the end of the iteration after close() at %r is expected)' % (kind, end, got, want, errors, t0 + 4),
+                     family='streams-as-payloads')
+
+
 def run(ctx):
     falsy_items(ctx, ctx.n(40, 600), 'channel')
+    channels_as_payloads(ctx, ctx.n(20, 200))
     double_subscription(ctx, ctx.n(20, 200))
     _run_vertical(ctx)
     # second, independent tie: channel programs on the whole-program machine (whole-trace correspondence)
